@@ -204,7 +204,7 @@ def main(prop, cfg):
         n_rand = int(os.environ.get("VERIF_SWEEP_DEFS", "600" if thorough else "150"))
         maxlen = 6 if thorough else 5
         rdefs = [dict(d, sweep_maxlen=5) for d in RD.make(1000 + C.SEED, n_rand) if prop in d["props"]]  # random definitions: length <= 5 in both tiers (the thorough tier has four times as many)
-        cdefs = [d for d in D.by_prop(prop, "thorough") if d.get("form", "step") == "step" and not d.get("via")]
+        cdefs = [d for d in D.by_prop_all(prop) if d.get("form", "step") == "step" and not d.get("via")]
         try:
             srows = SW.run(cdefs + rdefs, prop.lower(), 6, 4, maxlen)
         except Exception as e:  # noqa
